@@ -288,7 +288,7 @@ impl Scenario for C29 {
     }
     fn default_runs(tier: Tier) -> u64 {
         match tier {
-            Tier::Quick => 80_000,
+            Tier::Quick => 45_000,
             Tier::Thorough => 40_000_000,
         }
     }
